@@ -33,8 +33,9 @@ def all_handler_runs(ctx, fails):
                 rc, out = fh.run_cli(["--check", "--handler", sel, t.path("d")], epoch=samples.EPOCH, strace_out=tr)
                 mid = fh.snapshot(t.root, with_dir_mtime=True)
                 # the same through worker processes, with every combination of the options that are forwarded to them
-                for extra in (["-j2"], ["-v", "-j3"], ["-v"]):
-                    rcx, outx = fh.run_cli(["--check"] + extra + ["--handler", sel, t.path("d")], epoch=samples.EPOCH, timeout=120)
+                for extra in (["-j2"], ["-v", "-j3"], ["-v"], ["--brp", "-j2"], ["--brp"]):
+                    rcx, outx = fh.run_cli(["--check"] + extra + ["--handler", sel, t.path("d")], epoch=samples.EPOCH, timeout=120,
+                                           env_extra=({"RPM_BUILD_ROOT": t.root} if "--brp" in extra else None))
                     dx = fh.snap_equal(mid, fh.snapshot(t.root, with_dir_mtime=True))
                     if dx:
                         fails.append((label + " " + " ".join(extra), "check-modified-tree", "--check %s --handler %s changed the tree: %s" % (" ".join(extra), sel, "; ".join(dx[:4]))))
